@@ -1,14 +1,41 @@
 (* Properties/C19.v — Reported source ranges point at the right text.
    Only statements closed by [exact]; the proofs live in Proofs/Positions*.v.
 
-   [src_params] are the facts srcfacts reads from syntax/encoding/yaml.go on this run.  Statements that the code
-   violates are given as  *_refuted (conditional on the fact still having the defective value, witness checked by
-   computation)  and  as the partial statement over the complement of a decidable class:
-     zero_width_before   a TAB before the position on a line that contains non-ASCII text (uniseg width 0);
-                         empty when pos advances one column per code point
-     past_eol / true_byte = None   the (line, column) pair does not exist in the text: ends of block, folded and
-                         multi-line scalars are reported on a line that is too short
-     is_ascii value      scalar ends are computed with the byte length; empty when the character count is used. *)
+   [src_params] are the facts srcfacts reads from syntax/encoding/yaml.go on this run.  [u : uniseg] is the library
+   github.com/rivo/uniseg, an external collaborator: every theorem below holds for EVERY behaviour of it, and the
+   domain on which a statement needs the library to behave in a certain way is a hypothesis written in the statement:
+     w1_prefix (u_seg u l) cs     the first clusters uniseg.Step yields on the line l are the code points cs, each of
+                                  width 1.  FALSE for a TAB (width 0), for East-Asian wide characters and emoji
+                                  (width 2: 世), for combining sequences (two code points, one cluster).
+     u_width u v = nchars v       uniseg.StringWidth counts one column per code point of v.
+   Both are irrelevant (not assumed) when the source advances one column per code point (pp_runes / pp_sr_runes).
+
+   For each of the five statements there is
+     C19_x_partial             the statement outside a decidable class, for today's source,
+     C19_x_refuted             the full statement [C19_x_full src_params u] fails for today's source (conditional on
+                               the source fact still having the defective value; witness checked by computation, the
+                               same document is replayed against the implementation by the correspondence),
+     C19_x_full_if_repaired    the full statement for EVERY parameter record with the repairs and every library.
+   begin_le_end has no refutation: it holds for every node as stated (C19_begin_le_end, C19_begin_le_end_bytes).
+
+   Decidable classes the partial statements exclude (and the recorded finding each one is):
+     irregular_before    a cluster that is not one code point of width 1 before the position, on a line with non-ASCII
+                         text (C19-zero-width); empty when pos advances one column per code point
+     end_missing         the (line, column) the code computes for the END of a node does not exist in the text.  The end
+                         is computed by the code under test from yaml.v3's value: begin column + length of the value
+                         (of its last line for a literal scalar).  Excluded by this: block (|) scalars whose last
+                         content line is shorter than the column of the `|` (C19_strict_column_refuted: the block
+                         scalar of the witness, for every parameter record), folded (>) scalars, plain and quoted
+                         scalars continued on following lines (their folded value is longer than the rest of the
+                         first line), non-ASCII values while the length is in bytes (C19-bytes), and every collection
+                         whose last descendant is one of these (C19-past-eol).  What holds for these nodes all the
+                         same is C19_begin_le_end_bytes (begin correct, range reported, begin <= end in bytes);
+                         what fails is C19_range_in_text_refuted (the end byte lies outside the text).
+     non-ASCII value     scalar ends are computed with the byte length (C19-bytes); empty with the character count
+     anchored            yaml.v3 reports an anchored scalar `&x 1` at the `&` with the value `1`: the hypothesis
+                         "the value stands at (line, column)" of the slice theorems is false for such nodes, and the
+                         code gives them the first |value| characters of `&x 1` (C19_anchored_slice_refuted,
+                         C19-anchored).  The slice theorems are stated for nodes without anchor. *)
 From Verif Require Import Base.Bytes Model.Positions Src.SrcPositions
   Proofs.PositionsBase Proofs.PositionsProofs Proofs.PositionsScan Proofs.PositionsSrc.
 Local Open Scope Z_scope.
@@ -18,40 +45,52 @@ Local Open Scope Z_scope.
 Theorem C19_src_line_table_ok : line_table_fixed src_params = true.
 Proof. exact src_line_table_fixed. Qed.
 
-(* pos_consistent: for every (line, col) inside the text — [true_byte] is the specification: the lines before,
-   each with its newline, plus the first col-1 characters of the line — the reported byte offset is that one *)
-Theorem C19_pos_consistent_partial : forall text line col b,
+(* ===================================== 1. pos_consistent ===================================== *)
+(* for every (line, col) inside the text — [true_byte] is the specification: the lines before, each with its newline,
+   plus the first col-1 characters of the line — the reported byte offset is that one *)
+Theorem C19_pos_consistent_partial : forall u text line col b,
   true_byte text line col = Some b ->
-  zero_width_before src_params text line col = false ->
-  pos src_params (new_position_index text) line col = Some {| p_line := line; p_col := col; p_byte := b |}.
+  irregular_before src_params u text line col = false ->
+  pos src_params u (new_position_index text) line col = Some {| p_line := line; p_col := col; p_byte := b |}.
 Proof. exact src_pos_consistent. Qed.
 
-(* the same with the decomposition written out: text = pre-lines ++ (cs1 ++ cs2) ++ post-lines *)
-Theorem C19_pos_offset_of_line_and_chars : forall text pre l post cs1 cs2,
+(* the same with the decomposition and the domain hypothesis written out: text = pre-lines ++ (cs1 ++ cs2) ++ post *)
+Theorem C19_pos_offset_of_line_and_chars : forall u text pre l post cs1 cs2,
   lines_of text = pre ++ l :: post -> chars_of l = cs1 ++ cs2 ->
-  (pp_runes src_params = true \/ is_ascii_str l = true \/ forallb w1 cs1 = true) ->
-  pos src_params (new_position_index text) (Z.of_nat (length pre) + 1) (Z.of_nat (length cs1) + 1)
+  (pp_runes src_params = true \/ is_ascii_str l = true \/ w1_prefix (u_seg u l) cs1 = true) ->
+  pos src_params u (new_position_index text) (Z.of_nat (length pre) + 1) (Z.of_nat (length cs1) + 1)
   = Some {| p_line := Z.of_nat (length pre) + 1; p_col := Z.of_nat (length cs1) + 1;
             p_byte := lines_len pre + slenZ (concat_str cs1) |}.
 Proof. exact src_pos_decomp. Qed.
 
-(* the full statement (no class), refuted while pos advances by uniseg width, proved once it advances by code point *)
-Definition C19_pos_consistent_full : Prop := forall text line col b,
+(* the full statement (no class) *)
+Definition C19_pos_consistent_full (p : pos_params) (u : uniseg) : Prop := forall text line col b,
   true_byte text line col = Some b ->
-  pos src_params (new_position_index text) line col = Some {| p_line := line; p_col := col; p_byte := b |}.
+  pos p u (new_position_index text) line col = Some {| p_line := line; p_col := col; p_byte := b |}.
 
-Theorem C19_pos_consistent_refuted : pp_runes src_params = false -> ~ C19_pos_consistent_full.
+(* refuted while pos advances by uniseg width: a TAB before the position (width 0) and a wide character before the
+   position (世, width 2), both on a line with non-ASCII text *)
+Theorem C19_pos_consistent_refuted : pp_runes src_params = false ->
+  ~ C19_pos_consistent_full src_params (uniseg_simple []) /\ ~ C19_pos_consistent_full src_params (uniseg_simple [wide_char]).
 Proof. exact src_pos_consistent_not_full. Qed.
 
 Theorem C19_pos_consistent_refuted_witness : pp_runes src_params = false ->
-  exists text line col, bad_pos src_params text line col = true.
+  bad_pos src_params (uniseg_simple []) tab_text 2 20 = true
+  /\ bad_pos src_params (uniseg_simple [wide_char]) wide_text 2 7 = true.
 Proof. exact src_pos_consistent_refuted. Qed.
 
-Theorem C19_pos_consistent_full_if_repaired : pp_runes src_params = true -> C19_pos_consistent_full.
-Proof. exact src_pos_consistent_full_if. Qed.
+(* the two witnesses lie outside the domain of the partial theorem, the second one only because 世 is wide *)
+Theorem C19_pos_consistent_refuted_outside_domain : pp_runes src_params = false ->
+  irregular_before src_params (uniseg_simple []) tab_text 2 20 = true
+  /\ irregular_before src_params (uniseg_simple [wide_char]) wide_text 2 7 = true
+  /\ irregular_before src_params (uniseg_simple []) wide_text 2 7 = false.
+Proof. exact refuted_witnesses_are_irregular. Qed.
 
-(* the text is its lines joined by newlines (with and without a final newline), and the first [b] bytes of the text
-   are what [true_byte] says *)
+Theorem C19_pos_consistent_full_if_repaired : forall p u,
+  line_table_fixed p = true -> pp_runes p = true -> C19_pos_consistent_full p u.
+Proof. exact pos_consistent_full_if. Qed.
+
+(* the text is its lines joined by newlines (with and without a final newline) *)
 Theorem C19_text_is_its_lines : forall text, join_nl (lines_of text) = text.
 Proof. exact lines_join. Qed.
 
@@ -63,11 +102,22 @@ Theorem C19_two_definitions_agree : forall text line col,
   scan_pos text 0 1 1 0 line col = true_byte text line col.
 Proof. exact scan_pos_true_byte. Qed.
 
-(* the ASCII fast path of pos computes what the general walk computes *)
-Theorem C19_ascii_fast_path : forall runes l off col,
-  is_ascii_str l = true -> (runes = true \/ forallb w1 (chars_of l) = true) ->
+(* the oracle of the correspondence evaluates the specification over a table of the lines with their offsets, built
+   once per document, and reads newline / UTF-8 lead bytes off the bits: the same functions *)
+Theorem C19_fast_oracle_is_the_specification : forall text line col,
+  true_byte_tab (text_table text) line col = true_byte text line col
+  /\ (forall p u, irregular_before_tab p u (text_table text) line col = irregular_before p u text line col)
+  /\ (forall value, located_tab text (text_table text) line col value = located text line col value).
+Proof. exact fast_oracle_ok. Qed.
+
+Theorem C19_byte_classes_by_bits : forall c, rune_size c = rune_size_N c /\ is_nl c = is_nl_N c.
+Proof. exact byte_classes_ok. Qed.
+
+(* the ASCII fast path of pos computes what the general walk computes, on the stated domain *)
+Theorem C19_ascii_fast_path : forall cls l off col,
+  is_ascii_str l = true -> w1_prefix cls (chars_of l) = true ->
   1 <= col -> col - 1 <= slenZ l ->
-  walk runes (chars_of l) off 1 col = off + col - 1.
+  walk cls off 1 col = off + col - 1.
 Proof. exact ascii_fast_path. Qed.
 
 (* positions that exist in the text are inside it and ordered like (line, column) *)
@@ -78,48 +128,89 @@ Theorem C19_position_order : forall text l1 c1 b1 l2 c2 b2,
   true_byte text l1 c1 = Some b1 -> true_byte text l2 c2 = Some b2 -> lex_le l1 c1 l2 c2 -> b1 <= b2.
 Proof. exact true_byte_mono. Qed.
 
-(* range_in_text and begin_le_end for the range of ANY node (scalar of any style, collection) whose two
-   (line, column) pairs exist in the text *)
-Theorem C19_range_in_text_partial : forall text n tb te,
+(* ===================================== 2. range_in_text ===================================== *)
+(* the range of ANY node (scalar of any style, collection) outside the class [end_missing]: both positions are
+   consistent, the range lies in the text, begin <= end *)
+Theorem C19_range_in_text_partial : forall u text n tb,
   true_byte text (yn_line n) (yn_col n) = Some tb ->
-  true_byte text (fst (end_lc src_params n)) (snd (end_lc src_params n)) = Some te ->
-  zero_width_before src_params text (yn_line n) (yn_col n) = false ->
-  zero_width_before src_params text (fst (end_lc src_params n)) (snd (end_lc src_params n)) = false ->
+  end_missing src_params text n = false ->
+  irregular_before src_params u text (yn_line n) (yn_col n) = false ->
+  irregular_before src_params u text (fst (end_lc src_params n)) (snd (end_lc src_params n)) = false ->
   lex_le (yn_line n) (yn_col n) (fst (end_lc src_params n)) (snd (end_lc src_params n)) ->
-  node_range src_params (new_position_index text) n
-  = Some ({| p_line := yn_line n; p_col := yn_col n; p_byte := tb |},
-          {| p_line := fst (end_lc src_params n); p_col := snd (end_lc src_params n); p_byte := te |})
-  /\ 0 <= tb /\ tb <= te /\ te <= slenZ text.
-Proof. exact src_range_in_text. Qed.
+  exists te,
+    true_byte text (fst (end_lc src_params n)) (snd (end_lc src_params n)) = Some te
+    /\ node_range src_params u (new_position_index text) n
+       = Some ({| p_line := yn_line n; p_col := yn_col n; p_byte := tb |},
+               {| p_line := fst (end_lc src_params n); p_col := snd (end_lc src_params n); p_byte := te |})
+    /\ 0 <= tb /\ tb <= te /\ te <= slenZ text.
+Proof. exact src_range_in_text_class. Qed.
 
+(* the full statement: every node whose begin exists and whose end line is a line of the text *)
+Definition C19_range_in_text_full (p : pos_params) (u : uniseg) : Prop := forall text n tb,
+  true_byte text (yn_line n) (yn_col n) = Some tb ->
+  lex_le (yn_line n) (yn_col n) (fst (end_lc p n)) (snd (end_lc p n)) ->
+  1 <= snd (end_lc p n) ->
+  fst (end_lc p n) <= Z.of_nat (length (lines_of text)) ->
+  exists e, node_range p u (new_position_index text) n
+            = Some ({| p_line := yn_line n; p_col := yn_col n; p_byte := tb |}, e)
+    /\ 0 <= tb /\ tb <= p_byte e /\ p_byte e <= slenZ text.
+
+(* refuted, whatever the library does (the witness is ASCII): the block scalar of
+   "values:\n  some_long_key_name: |\n    a\n" ends at byte 54 of a 38-byte text (known finding C19-past-eol) *)
+Theorem C19_range_in_text_refuted : pp_clamp src_params = false -> forall u, ~ C19_range_in_text_full src_params u.
+Proof. exact src_range_in_text_not_full. Qed.
+
+Theorem C19_range_in_text_refuted_witness : pp_clamp src_params = false ->
+  forall u, end_outside src_params u literal_text literal_node = true.
+Proof. exact src_range_in_text_refuted. Qed.
+
+(* that node is in the excluded class, for every parameter record: its end column does not exist on its line *)
+Theorem C19_strict_column_refuted : forall p,
+  past_eol literal_text (fst (end_lc p literal_node)) (snd (end_lc p literal_node)) = true
+  /\ end_missing p literal_text literal_node = true.
+Proof. exact strict_column_refuted. Qed.
+
+Theorem C19_range_in_text_full_if_repaired : forall p u,
+  line_table_fixed p = true -> pp_runes p = true -> pp_clamp p = true -> C19_range_in_text_full p u.
+Proof. exact range_in_text_full_if. Qed.
+
+(* ===================================== 3. begin_le_end ===================================== *)
 (* the (line, column) of the end is never before that of the begin: scalars by construction, collections when
    yaml.v3 lists children in document order *)
 Theorem C19_begin_le_end : forall n, ordered n ->
   lex_le (yn_line n) (yn_col n) (fst (end_lc src_params n)) (snd (end_lc src_params n)).
 Proof. exact src_node_order. Qed.
 
-Theorem C19_range_in_text_refuted : pp_clamp src_params = false ->
-  exists text n, end_outside src_params text n = true.
-Proof. exact src_range_in_text_refuted. Qed.
+(* ... and in bytes, for EVERY node whose begin exists (block, folded and multi-line scalars included: no hypothesis
+   on the end beyond its line being a line of the text): the range is reported, begins at the right byte, and the end
+   byte is not before the begin byte *)
+Theorem C19_begin_le_end_bytes : forall u text n tb,
+  true_byte text (yn_line n) (yn_col n) = Some tb ->
+  irregular_before src_params u text (yn_line n) (yn_col n) = false ->
+  lex_le (yn_line n) (yn_col n) (fst (end_lc src_params n)) (snd (end_lc src_params n)) ->
+  1 <= snd (end_lc src_params n) ->
+  fst (end_lc src_params n) <= Z.of_nat (length (lines_of text)) ->
+  exists e, node_range src_params u (new_position_index text) n
+            = Some ({| p_line := yn_line n; p_col := yn_col n; p_byte := tb |}, e)
+    /\ p_line e = fst (end_lc src_params n) /\ p_col e = snd (end_lc src_params n)
+    /\ 0 <= tb /\ tb <= p_byte e.
+Proof. exact src_range_bytes_ordered. Qed.
 
-Theorem C19_strict_column_refuted : forall p,
-  past_eol literal_text (fst (end_lc p literal_node)) (snd (end_lc p literal_node)) = true.
-Proof. exact strict_column_refuted. Qed.
-
-(* plain_scalar_slice: a plain single-line scalar [value] located where yaml says (after the characters [a] on
-   line |pre|+1; [pre], [post] arbitrary, [post] = [] is the last line without a final newline; [a] may contain
-   non-ASCII text): both positions exist in the text and text[begin, end) = value *)
-Theorem C19_plain_scalar_slice_partial : forall text pre a value z post tag anch,
+(* ===================================== 4. plain_scalar_slice ===================================== *)
+(* a plain single-line scalar [value] WITHOUT anchor located where yaml says (after the characters [a] on line
+   |pre|+1; [pre], [post] arbitrary, [post] = [] is the last line without a final newline; [a] may contain non-ASCII
+   text): both positions exist in the text and text[begin, end) = value *)
+Theorem C19_plain_scalar_slice_partial : forall u text pre a value z post tag,
   lines_of text = pre ++ (a +++ value +++ z) :: post ->
   complete a = true -> complete value = true ->
   (pp_end_chars src_params = true \/ is_ascii_str value = true) ->
   (pp_runes src_params = true \/ is_ascii_str (a +++ value +++ z) = true
-   \/ forallb w1 (chars_of (a +++ value)) = true) ->
+   \/ w1_prefix (u_seg u (a +++ value +++ z)) (chars_of (a +++ value)) = true) ->
   let line := Z.of_nat (length pre) + 1 in
   let col := nchars a + 1 in
   let b := lines_len pre + slenZ a in
   let e := b + slenZ value in
-  node_range src_params (new_position_index text) (YNode 8 0 tag value line col anch [])
+  node_range src_params u (new_position_index text) (YNode 8 0 tag value line col false [])
   = Some ({| p_line := line; p_col := col; p_byte := b |},
           {| p_line := line; p_col := col + nchars value; p_byte := e |})
   /\ substr b e text = value
@@ -127,28 +218,45 @@ Theorem C19_plain_scalar_slice_partial : forall text pre a value z post tag anch
   /\ true_byte text line col = Some b /\ true_byte text line (col + nchars value) = Some e.
 Proof. exact src_plain_scalar_slice. Qed.
 
-Definition C19_plain_scalar_slice_full : Prop := forall text pre a value z post tag anch,
+Definition C19_plain_scalar_slice_full (p : pos_params) (u : uniseg) : Prop := forall text pre a value z post tag,
   lines_of text = pre ++ (a +++ value +++ z) :: post ->
   complete a = true -> complete value = true ->
   let line := Z.of_nat (length pre) + 1 in
   let col := nchars a + 1 in
-  exists b e, node_range src_params (new_position_index text) (YNode 8 0 tag value line col anch []) = Some (b, e)
+  exists b e, node_range p u (new_position_index text) (YNode 8 0 tag value line col false []) = Some (b, e)
               /\ substr (p_byte b) (p_byte e) text = value
               /\ 0 <= p_byte b /\ p_byte b <= p_byte e /\ p_byte e <= slenZ text.
 
-Theorem C19_plain_scalar_slice_refuted : pp_end_chars src_params = false -> ~ C19_plain_scalar_slice_full.
+Theorem C19_plain_scalar_slice_refuted : pp_end_chars src_params = false ->
+  ~ C19_plain_scalar_slice_full src_params (uniseg_simple []).
 Proof. exact src_plain_scalar_slice_not_full. Qed.
 
 Theorem C19_plain_scalar_slice_refuted_witness : pp_end_chars src_params = false ->
-  exists text line col value, bad_slice src_params text line col value = true.
+  bad_slice src_params (uniseg_simple []) nonascii_text 2 10 nonascii_value = true.
 Proof. exact src_plain_scalar_slice_refuted. Qed.
 
-Theorem C19_plain_scalar_slice_full_if_repaired :
-  pp_runes src_params = true -> pp_end_chars src_params = true -> C19_plain_scalar_slice_full.
-Proof. exact src_plain_scalar_slice_full_if. Qed.
+Theorem C19_plain_scalar_slice_full_if_repaired : forall p u,
+  line_table_fixed p = true -> pp_runes p = true -> pp_end_chars p = true -> C19_plain_scalar_slice_full p u.
+Proof. exact plain_scalar_slice_full_if. Qed.
 
-(* accessor ranges: the piece v2 of a plain single-line scalar v1 ++ v2 ++ v3 *)
-Theorem C19_scalar_subrange_partial : forall text pre a v1 v2 v3 z post tag anch style,
+(* anchored scalars are outside the slice statements: for EVERY parameter record whose guard lets the lines through
+   and every library, the range reported for the value `1` of `f: &x 1` is the text "&" — two positions that exist in
+   the text, delimiting the wrong text (known finding C19-anchored) *)
+Theorem C19_anchored_slice_refuted : forall p u, line_table_fixed p = true ->
+  exists b e, node_range p u (new_position_index anchored_text) anchored_node = Some (b, e)
+              /\ substr (p_byte b) (p_byte e) anchored_text = "&"
+              /\ true_byte anchored_text 2 6 = Some (p_byte b)
+              /\ true_byte anchored_text 2 7 = Some (p_byte e).
+Proof. exact anchored_slice_refuted. Qed.
+
+(* the anchor flag is not an input of the computation *)
+Theorem C19_node_range_ignores_anchor : forall p u idx k s t v l c a1 a2 ch,
+  node_range p u idx (YNode k s t v l c a1 ch) = node_range p u idx (YNode k s t v l c a2 ch).
+Proof. exact node_range_ignores_anchor. Qed.
+
+(* ===================================== 5. scalar_subrange ===================================== *)
+(* accessor ranges: the piece v2 of a plain single-line scalar v1 ++ v2 ++ v3 without anchor *)
+Theorem C19_scalar_subrange_partial : forall u text pre a v1 v2 v3 z post tag style,
   let value := v1 +++ v2 +++ v3 in
   lines_of text = pre ++ (a +++ value +++ z) :: post ->
   complete a = true -> complete v1 = true -> complete v2 = true -> complete v3 = true ->
@@ -157,11 +265,12 @@ Theorem C19_scalar_subrange_partial : forall text pre a v1 v2 v3 z post tag anch
   let line := Z.of_nat (length pre) + 1 in
   let col := nchars a + 1 in
   (pp_runes src_params = true \/ is_ascii_str (a +++ value +++ z) = true
-   \/ forallb w1 (chars_of (a +++ value)) = true) ->
-  (pp_sr_runes src_params = true \/ forallb w1 (chars_of (v1 +++ v2)) = true) ->
-  forall rng, node_range src_params (new_position_index text) (YNode 8 0 tag value line col anch []) = Some rng ->
+   \/ w1_prefix (u_seg u (a +++ value +++ z)) (chars_of (a +++ value)) = true) ->
+  (pp_sr_runes src_params = true
+   \/ (u_width u v1 = nchars v1 /\ u_width u (v1 +++ v2) = nchars (v1 +++ v2))) ->
+  forall rng, node_range src_params u (new_position_index text) (YNode 8 0 tag value line col false []) = Some rng ->
   exists b' e',
-    scalar_range src_params (YNode 8 style tag value line col anch []) rng
+    scalar_range src_params u (YNode 8 style tag value line col false []) rng
                  (String.length v1) (String.length v1 + String.length v2) = Some (b', e')
     /\ p_line b' = line /\ p_line e' = line
     /\ true_byte text line (p_col b') = Some (p_byte b')
@@ -170,25 +279,74 @@ Theorem C19_scalar_subrange_partial : forall text pre a v1 v2 v3 z post tag anch
     /\ p_byte b' <= p_byte e' <= slenZ text.
 Proof. exact src_scalar_subrange. Qed.
 
-(* non-vacuity: the last line of a document without a final newline; non-ASCII text before the node; a collection *)
-Example C19_example_last_line :
-  node_range src_params (new_position_index last_line_text) (YNode 8 0 "!!str" "last" 2 6 false [])
+Definition C19_scalar_subrange_full (p : pos_params) (u : uniseg) : Prop :=
+  forall text pre a v1 v2 v3 z post tag style,
+  let value := v1 +++ v2 +++ v3 in
+  lines_of text = pre ++ (a +++ value +++ z) :: post ->
+  complete a = true -> complete v1 = true -> complete v2 = true -> complete v3 = true ->
+  (style = 0 \/ style = 32)%N ->
+  let line := Z.of_nat (length pre) + 1 in
+  let col := nchars a + 1 in
+  forall rng, node_range p u (new_position_index text) (YNode 8 0 tag value line col false []) = Some rng ->
+  exists b' e',
+    scalar_range p u (YNode 8 style tag value line col false []) rng
+                 (String.length v1) (String.length v1 + String.length v2) = Some (b', e')
+    /\ p_line b' = line /\ p_line e' = line
+    /\ true_byte text line (p_col b') = Some (p_byte b')
+    /\ true_byte text line (p_col e') = Some (p_byte e')
+    /\ substr (p_byte b') (p_byte e') text = v2
+    /\ p_byte b' <= p_byte e' <= slenZ text.
+
+(* refuted while ScalarRange advances by uniseg.StringWidth: a TAB inside the scalar before the accessor — the
+   accessor a of "values:\n  a: 1\n  b: x\t${a}\n" is reported one column to the left of its byte (C19-accessor-tab) *)
+Theorem C19_scalar_subrange_refuted : pp_sr_runes src_params = false ->
+  ~ C19_scalar_subrange_full src_params (uniseg_simple []).
+Proof. exact src_scalar_subrange_not_full. Qed.
+
+Theorem C19_scalar_subrange_refuted_witness : pp_sr_runes src_params = false ->
+  bad_sub src_params (uniseg_simple []) sr_text (YNode 8 0 "!!str" sr_value 3 6 false []) 4 5 = true.
+Proof. exact src_scalar_subrange_refuted. Qed.
+
+Theorem C19_scalar_subrange_full_if_repaired : forall p u,
+  line_table_fixed p = true -> pp_runes p = true -> pp_end_chars p = true -> pp_sr_runes p = true ->
+  C19_scalar_subrange_full p u.
+Proof. exact scalar_subrange_full_if. Qed.
+
+(* a record with every repair exists and satisfies all the premises above (the `_full_if_repaired` theorems are not
+   vacuous) *)
+Example C19_example_repaired_record :
+  line_table_fixed repaired_params = true /\ pp_runes repaired_params = true /\ pp_clamp repaired_params = true
+  /\ pp_end_chars repaired_params = true /\ pp_sr_runes repaired_params = true
+  /\ forall u, C19_pos_consistent_full repaired_params u /\ C19_range_in_text_full repaired_params u
+               /\ C19_plain_scalar_slice_full repaired_params u /\ C19_scalar_subrange_full repaired_params u.
+Proof. exact example_repaired_record. Qed.
+
+(* non-vacuity: the last line of a document without a final newline; non-ASCII text before the node; a collection;
+   a block scalar (in the class end_missing) under the all-nodes theorem *)
+Example C19_example_last_line : forall u,
+  node_range src_params u (new_position_index last_line_text) (YNode 8 0 "!!str" "last" 2 6 false [])
   = Some ({| p_line := 2; p_col := 6; p_byte := 13 |}, {| p_line := 2; p_col := 10; p_byte := 17 |})
   /\ substr 13 17 last_line_text = "last"
   /\ lines_of last_line_text = ["values:"] ++ ("  k: " +++ "last" +++ "") :: [].
 Proof. exact example_last_line. Qed.
 
 Example C19_example_nonascii_before :
-  node_range src_params (new_position_index nonascii_text) (YNode 8 0 "!!str" "z" 2 17 false [])
+  node_range src_params (uniseg_simple []) (new_position_index nonascii_text) (YNode 8 0 "!!str" "z" 2 17 false [])
   = Some ({| p_line := 2; p_col := 17; p_byte := 27 |}, {| p_line := 2; p_col := 18; p_byte := 28 |})
   /\ substr 27 28 nonascii_text = "z"
   /\ located nonascii_text 2 17 "z" = true
-  /\ zero_width_before src_params nonascii_text 2 18 = false.
+  /\ irregular_before src_params (uniseg_simple []) nonascii_text 2 18 = false.
 Proof. exact example_nonascii_before. Qed.
 
 Example C19_example_collection :
   let n := YNode 4 32 "!!map" "" 2 6 false [YNode 8 0 "!!int" "1" 2 20 false []] in
-  node_range src_params (new_position_index nonascii_text) n
+  node_range src_params (uniseg_simple []) (new_position_index nonascii_text) n
   = Some ({| p_line := 2; p_col := 6; p_byte := 14 |}, {| p_line := 2; p_col := 21; p_byte := 31 |})
   /\ ordered n.
 Proof. exact example_collection. Qed.
+
+Example C19_example_block_scalar_ordered : forall u,
+  end_missing src_params literal_text literal_node = true
+  /\ exists e, node_range src_params u (new_position_index literal_text) literal_node
+               = Some ({| p_line := 2; p_col := 23; p_byte := 30 |}, e) /\ 30 <= p_byte e.
+Proof. exact example_block_scalar_ordered. Qed.
